@@ -60,6 +60,9 @@ var localSnippets = []string{
 	`<%= for (i) in range(1, 4) { %><%= i %><% } %><%= for (i) in until(3) { %><%= i %><% } %>`,
 	// operators whose right operand comes from the data and differs per execution (same result every time):
 	// anything the engine remembers across executions, keyed by such a value, is shared mutable state
+	// ASSIGNMENT (not let) to names that live in the data the execution was given - for a child context these are
+	// names of the SHARED PARENT: an execution only ever writes into its own context
+	`<% s3 = s3 + "!" %><%= s3 %>|<% let bump = fn() { i1 = i1 + 1 return i1 } %><%= bump() %>|<%= if (t) { %><% i7 = i7 * 2 %><%= i7 %><% } %>|<%= for (x) in two { %><% i2 = i2 + x %><% } %><%= i2 %>`,
 	`<%= s3 ~= fresh %>|<%= s3 == fresh %>|<%= for (w) in words { %><%= w ~= fresh %><% } %><%= truncate(fresh, {size: 2}) == fresh %>`,
 }
 
@@ -343,7 +346,7 @@ func runCtx(r *vk.Run, c CtxCase) *vk.Fail {
 
 // ---- the test -----------------------------------------------------------------------------------------------
 
-const rule = "built with the Go race detector (halt on first report; the case noted last is the replay). (A) one parsed template executed from G in {2,4,8,16,32} goroutines x {own root context, child of one shared parent} x cache {off: the very same *Template and its Clones; cold; warm} x 3 rounds; templates: 8 fixed snippets exercising template-local arrays and hashes with index assignment, accumulating assignment in loops, contentFor/contentOf, built-in helpers and iterators, operators (~=, ==) whose right operand is a data value that differs in every execution, and random all-construct programs (shared generator, with partials and block helpers). (A2) page + layout: every goroutine executes a page that stores blocks with contentFor and then, on the same context, a layout that renders them with contentOf (inside loops, with overrides, with a default block), so evaluator state captured by a stored block outlives the execution that created it. Every concurrent result must equal the sequential result. (B) concurrent Parse+Exec / Render of 1-4 equal and different texts with the cache on (first goroutine cold, the rest warm). (C) 2-16 goroutines running random mixes of Set / Value / Has / New / New().Set / New().Value / Value(built-in) / Exec on a child, all on ONE shared context, with invariants on what they may observe. Non-trivial = G >= 2 and the template uses >= 3 kinds of construct (A), every B and C case; distinct by case."
+const rule = "built with the Go race detector (halt on first report; the case noted last is the replay). (A) one parsed template executed from G in {2,4,8,16,32} goroutines x {own root context, child of one shared parent} x cache {off: the very same *Template and its Clones; cold; warm} x 3 rounds; templates: 9 fixed snippets exercising template-local arrays and hashes with index assignment, accumulating assignment in loops, assignment (at top level, in a function, an if and a loop) to names that live in the shared parent, contentFor/contentOf, built-in helpers and iterators, operators (~=, ==) whose right operand is a data value that differs in every execution, and random all-construct programs (shared generator, with partials and block helpers). (A2) page + layout: every goroutine executes a page that stores blocks with contentFor and then, on the same context, a layout that renders them with contentOf (inside loops, with overrides, with a default block), so evaluator state captured by a stored block outlives the execution that created it. Every concurrent result must equal the sequential result. (B) concurrent Parse+Exec / Render of 1-4 equal and different texts with the cache on (first goroutine cold, the rest warm). (C) 2-16 goroutines running random mixes of Set / Value / Has / New / New().Set / New().Value / Value(built-in) / Exec on a child, all on ONE shared context, with invariants on what they may observe. Non-trivial = G >= 2 and the template uses >= 3 kinds of construct (A), every B and C case; distinct by case."
 
 func setup(t *testing.T) *vk.Run {
 	r := vk.Start(t, "C14", rule,
@@ -420,7 +423,7 @@ func TestProp(t *testing.T) {
 			}
 		}
 	}
-	r.Subspace("8 fixed snippets x G in {2,4,8,16,32} x 2 context modes x 3 cache modes", n, true)
+	r.Subspace("9 fixed snippets x G in {2,4,8,16,32} x 2 context modes x 3 cache modes", n, true)
 	var m int64
 	for _, s := range pageSnippets {
 		for _, l := range layoutSnippets {
